@@ -1,6 +1,7 @@
 import GoBT.Driver.C01
 import GoBT.Driver.Sighash
 import GoBT.Driver.C13
+import GoBT.Driver.C14
 open GoBT GoBT.Driver
 
 def dispatch (op : String) (args : List String) (impl : String) : Answer :=
@@ -20,6 +21,7 @@ def dispatch (op : String) (args : List String) (impl : String) : Answer :=
   | "C13.asm" => c13Asm args impl
   | "C13.hexjson" => c13HexJson args impl
   | "C13.minpush" => c13MinPush args impl
+  | "C14.inspect" => c14Inspect args impl
   | _ => ("unknown-op", "n/a")
 
 partial def loop (h : IO.FS.Stream) (out : IO.FS.Stream) : IO Unit := do
